@@ -133,12 +133,15 @@ void ArgumentContainer::checkArgMix( const string& ownName,
 
 /// Searches if this short or long argument is defined.<br>
 /// If a long argument name was used, also search for partial matches.
-/// @param[in]  key  The short and/or long argument name to check.
+/// @param[in]  key         The short and/or long argument name to check.
+/// @param[in]  exact_only  Set to only search for an argument with exactly
+///                         this key, no partial matches.
 /// @return  Pointer to the argument handler object if the argument is
 ///          defined, NULL otherwise.
 /// @since  0.15.0, 12.07.2017  (take ArgumentKey as parameter)
 /// @since  0.2, 10.04.2016
-TypedArgBase* ArgumentContainer::findArg( const ArgumentKey& key) const
+TypedArgBase* ArgumentContainer::findArg( const ArgumentKey& key,
+                                          bool exact_only) const
 {
 
 
@@ -150,7 +153,7 @@ TypedArgBase* ArgumentContainer::findArg( const ArgumentKey& key) const
          return argi.data().get();
    } // end for
 
-   if (!mAbbrAllowed)
+   if (!mAbbrAllowed || exact_only)
       return nullptr;
 
    TypedArgBase*  part_match = nullptr;
